@@ -16,7 +16,7 @@ func init() {
 			"no explicit panic in code reachable from the receive loop; every session-lock acquisition in the client is released on every path before the function returns or blocks on a channel; the peer is closed only by Close() " +
 			"(and by NewClient on join failure); the receive loop cancels the client's context on every exit as its first deferred action; the dispatcher ends the loop only for GOODBYE/ABORT and ignores unknown messages; " +
 			"Close() forces the receive loop to end whenever it has not observed it ending, waits for invocation handlers and then closes the peer; handler start/finish are counted in pairs. " +
-			"Known finding D18: a reply handed to an abandoned waiter strands the receive loop.",
+			"a reply handed to a waiter that gave up releases the receive loop through the waiter's gone channel (D18, repaired); invocation goroutines never block on the peer alone; a wait for a reply is bounded by one timer.",
 		NotDecided: "user handlers blocking the receive loop (documented API contract), hostile transports below the Peer interface, timing of replies against timers.",
 		Run: runC17,
 	})
